@@ -74,7 +74,16 @@ s = s[:i] + "## 8. Seeded changes and which checks catch them\n\n" + \
     "stale parameters handed to the refinement, an in-place `|=` on the batch dictionary); all led to new rules or to corrections of the " \
     "interpreter's Python semantics (default values evaluated once, in-place augmented assignment). The changes that are still not reported " \
     "by the check of their own property sit in code that another property states (a network-wrapper change seeded for the operators, a system-loss " \
-    "constructor change seeded for the boundary term, ...) and are reported by that property's check.\n\n" + \
+    "constructor change seeded for the boundary term, ...) and are reported by that property's check. " \
+    "Round 4 (`Cxx_r4mK`, 'refactoring gone wrong': each change is a well-meant clean-up of 8-40 lines - a helper shared by two call sites, two branches " \
+    "merged behind a flag, a loop vectorised, a computation hoisted - that is almost equivalent): at first 28 of 60 were not reported by the check of " \
+    "their own property, 20 of them by no check (8 of those only made a check leave its vocabulary: exit 2). They led to the tagged differentiation " \
+    "(a drift evaluated on a grid hoisted out of the differentiated closure), the single normal form of means (`sum / n`), the interval " \
+    "interpretation of the refinement masks, precedence of observed over generated parameter values, crossed maps over tables sharing their rows, " \
+    "dictionaries paired by position (generators and systems), negative integer selections, single-point separable batches, counts with an inexact " \
+    "d-th root, and to models (`match`, `broadcast_arrays`, array-valued `linspace`, `divmod`, reshapes of the concrete axes between named ones). " \
+    "Four are not decided (one float-rounding change, three that leave the vocabulary of the mask / loop rules: see section 6); two defects of the " \
+    "unmodified tree reported by the seeders or found while writing the new obligations were repaired (2a4bffc, a7fe902).\n\n" + \
     tab + "\n\nOne candidate was dropped: `C16_m3` (`i <= start_iter` -> `i < start_iter` in `rar_step_false`). It was produced against " \
     "the tree before repair fc78006; on the repaired tree the period counter equals `update_every - 1` at `start_iter`, a non-step at " \
     "`i == start_iter` can then only be caused by a full store, and the change no longer alters any observable count (its demo passes " \
